@@ -28,7 +28,7 @@ def addOpCode (codes : List Nat) (code : Nat) : List Nat × Nat :=
     free one, so the fall-back (a name longer than every existing name, hence fresh) is never
     taken; it only makes freshness provable without a pigeonhole argument. -/
 def longName (names : List String) (base : String) : String :=
-  base ++ "_" ++ String.mk (List.replicate (names.foldl (fun a n => a + n.length) 0 + 1) '_')
+  base ++ "_" ++ String.ofList (List.replicate (names.foldl (fun a n => a + n.length) 0 + 1) '_')
 
 def uniqueNameAux (names : List String) (base : String) : Nat → Nat → String
   | 0, _ => longName names base
